@@ -21,6 +21,7 @@ RULE = (
     "order. Each window is one evaluation. Non-trivial = non-empty window containing >=1 stored value whose row "
     "and column ranges overlap (touches/straddles the diagonal) or that is read with chunksize smaller than the "
     "pixels of its rows. Distinct by (digest of matrix+options, window)."
+    ' Also: explicit step 1; negative bounds reaching beyond the start of the axis (clipped at 0, as for arrays); matrix() options left to their documented defaults; the lazy engine output (`to_delayed()` chunks of two queries - same window, another matrix and chunk size - computed in one dask.compute call).'
 )
 ASSUMPTIONS = [
     "window bounds lie in [0, n] (the property's domain); out-of-range slices are not generated",
